@@ -476,11 +476,13 @@ fn pretty_tail(tail: Pattern) -> String {
             let args = args
                 .into_iter()
                 .enumerate()
-                .map(|(index, p)| {
+                .filter_map(|(index, p)| {
                     if index == 1 {
-                        pretty_tail(p)
+                        // The end of the list is not an element: `[_, _]`, not `[_, _, []]`.
+                        let tail = pretty_tail(p);
+                        if tail == "[]" { None } else { Some(tail) }
                     } else {
-                        p.pretty()
+                        Some(p.pretty())
                     }
                 })
                 .join(", ");
